@@ -175,17 +175,18 @@ def registry_sizes() -> dict:
                 except Exception:
                     pass
 
+    extra_roots = ("yaml", "linecache", "warnings", "copyreg")       # process-wide tables outside the package that a run can feed
     for modname in sorted(sys.modules):
-        if not (modname == "semantiva" or modname.startswith("semantiva.")):
+        if not (modname == "semantiva" or modname.startswith("semantiva.") or modname in extra_roots or modname.startswith("yaml.")):
             continue
         mod = sys.modules.get(modname)
         if mod is None:
             continue
         for name, val in sorted(vars(mod).items(), key=lambda kv: kv[0]):
-            if name.startswith("__"):
+            if name.startswith("__") and name != "__warningregistry__":
                 continue
             if isinstance(val, type):
-                if getattr(val, "__module__", None) != modname:
+                if getattr(val, "__module__", None) != modname and not modname.startswith("yaml"):
                     continue
                 for an, av in sorted(vars(val).items(), key=lambda kv: kv[0]):
                     if an.startswith("__") or an == "_abc_impl":
@@ -587,6 +588,14 @@ def drive_queue_worker(job, case, mon):
                         # every fourth job fails in the worker (required parameter neither configured nor in the
                         # context): the error path must not leave anything behind either
                         fut = orch.enqueue([{"processor": "VSrc"}], data=None, context=ContextType({}), return_future=True)
+                    elif submitted % 5 == 2:
+                        # a job whose registry profile cannot be applied on the worker (a module that is not installed
+                        # there): the worker warns and runs the job anyway - nothing may pile up per such job either
+                        from semantiva.registry.bootstrap import RegistryProfile
+
+                        fut = orch.enqueue(copy.deepcopy(case["nodes"]), data=to_real_data(case["data"]),
+                                           context=ContextType(copy.deepcopy(case["ctx"])), return_future=True,
+                                           registry_profile=RegistryProfile(load_defaults=True, modules=[], paths=[], extensions=["not_installed_ext_c18"]))
                     else:
                         fut = orch.enqueue(copy.deepcopy(case["nodes"]), data=to_real_data(case["data"]),
                                            context=ContextType(copy.deepcopy(case["ctx"])), return_future=True)
@@ -627,7 +636,7 @@ def drive_relaunch_cli(job, case, mon):
     del doc, context
     for k in range(1, job["n"] + 1):
         try:
-            cli.main(["run", path, "--quiet"])
+            cli.main(["run", path, "--quiet", "--context", "c18_extra=2.5", "--set", "trace.options.detail=hash"])
         except SystemExit as exc:
             if (exc.code or 0) != 0:
                 raise RuntimeError(f"semantiva run exited with {exc.code}")
